@@ -196,7 +196,8 @@ func main() {
 	list := flag.String("cases", "", "file with the case indices to run (child mode)")
 	resf := flag.String("results", "", "results file (child mode)")
 	flag.Parse()
-	slog.SetDefault(slog.New(slog.NewTextHandler(io.Discard, nil)))
+	// debug level (output discarded): the request-logging middleware and every slog.Debug argument are evaluated
+	slog.SetDefault(slog.New(slog.NewTextHandler(io.Discard, &slog.HandlerOptions{Level: slog.LevelDebug})))
 
 	st, err := statusTable()
 	if err != nil {
